@@ -209,6 +209,17 @@ def _typed(v, depth=0):
     return ['obj', type(v).__name__]
 
 
+_SAVE_ERR = 'values or result can not be saved'
+
+
+def _save_err_cut(text):
+    """the save error of a task whose values / result can not be stored names the reason of whichever step rejected the
+    value first (json in the main process; pickle in a worker process, /repo a38b99a): same failure, reason text cut"""
+    if isinstance(text, str) and _SAVE_ERR in text:
+        return text[:text.index(_SAVE_ERR) + len(_SAVE_ERR)] + ' <reason>'
+    return text
+
+
 def _task_data(task, fail=None):
     d = {'values': _jsonable(getattr(task, 'values', None)), 'result': _jsonable(getattr(task, 'result', None)),
          'typed': [_typed(getattr(task, 'values', None)), _typed(getattr(task, 'result', None))],
@@ -227,14 +238,20 @@ def _task_data(task, fail=None):
                 # (once per edge kind), a set in the sense of the property: compared as a sorted set
                 d['fail'] = ['UnmetDependency', sorted(set(str(getattr(fail, 'message', '')).split()))]
             else:
-                d['fail'] = [type(fail).__name__, _blob(getattr(fail, 'message', None)), _blob(fail.get_msg())]
+                d['fail'] = [type(fail).__name__, _blob(_save_err_cut(getattr(fail, 'message', None))), _blob(_save_err_cut(fail.get_msg()))]
             # everything a reporter may read on the failure object: name, the `report` flag (ConsoleReporter prints a
             # failure only if it is set), the traceback lines, and which attributes the object carries at all
             d['fail_obj'] = {'name': fail.get_name(), 'report': getattr(fail, 'report', '<missing>'),
                              'traceback': _blob(''.join(getattr(fail, 'traceback', None) or [])),
                              'attrs': sorted(k for k in vars(fail))}
+            if _SAVE_ERR in str(getattr(fail, 'message', '')):
+                # the task object of a task whose values can not be stored: a worker process can not even send them
+                # (a38b99a resets them), the serial runner leaves them on the object; nothing of it is saved (DB dump is
+                # compared) -- the in-memory leftovers of the failed task are not compared
+                for k in ('values', 'result', 'typed'):
+                    d[k] = '<not compared: save error>'
             if type(fail).__name__ != 'UnmetDependency':       # (its message is a set in arrival order, see above)
-                d['fail_obj']['repr'] = _blob(repr(fail))
+                d['fail_obj']['repr'] = _blob(_save_err_cut(repr(fail)))
         except Exception as ex:  # noqa
             d['fail'] = ['unreadable', type(ex).__name__]
     return d
@@ -655,10 +672,12 @@ def gen_b(rng, runner='serial', nproc=0):
                 a['vshape'] = rng.choice(shapes)
     bad = None
     if rng.random() < 0.08:
-        # a value that can not be saved (set, bytes) or not even sent through the result queue (lambda): every runner
-        # must end the run the same way (the comparison is then exit code + error class only)
-        bad = rng.choice(['set', 'bytes', 'lambda', 'set', 'bytes'])
+        # a value that can not be saved (set, bytes) or not even sent through the result queue (lambda): since /repo
+        # 8fa62ea / a38b99a that is a save error of THAT task under every runner (failure, dependents unmet, nothing
+        # recorded): a plain outcome-equivalence case; --continue so that the run is complete and compared
+        bad = rng.choice(['set', 'bytes', 'lambda'])
         tasks.append(_bt('badval', 90, actions=[_act(ret='dict', vals={'x': 1}, vshape=bad, out='badval')]))
+        tasks.append(_bt('afterbad', 91, actions=[_act(out='never')], task_dep=['badval']))
     # (#19) per-task verbosity, io capture, save_out of cmd-actions
     for t in tasks:
         if t['kind'] == 'group':
@@ -688,7 +707,7 @@ def gen_b(rng, runner='serial', nproc=0):
         for i in range(rng.randint(2, 3)):
             tasks.append(_bt('mk%d' % i, 70 + i, actions=[_act(t='mkdir', path=path),
                                                          _act(files=['%s/mk%d.txt' % (path, i)], out='mk%d' % i)]))
-    cont = rng.random() < 0.6
+    cont = rng.random() < 0.6 or bad is not None
     if cont:
         # failures of every kind (only with --continue: otherwise the run is cut short and nothing is compared)
         kinds = ['false', 'raise', 'failobj', 'errobj', 'cmdfail', 'cmderr', 'failobj_silent', 'errobj_silent', 'errobj_wrapped',
@@ -897,9 +916,8 @@ def sig_premature_group_status(w):
 
 
 def sig_unpicklable_result_hangs(w):
-    """open finding unpicklable-result-hangs: an action returns a value pickle rejects (vshape 'lambda'); the process
-    runner never ends (the result is lost in the queue's feeder thread); serial / thread end with an internal error or,
-    when the value is only rejected by the DB at the end, report the task failed"""
+    """FIXED finding unpicklable-result-hangs (/repo a38b99a; not a signature any more, only labels a regression in the
+    distribution): an action returns a value pickle rejects (vshape 'lambda') and the process runner never ends"""
     case = w.get('case') or {}
     var = w.get('variant') or {}
     return bool(case.get('badvalue') == 'lambda' and var.get('runner') == 'process'
@@ -1049,32 +1067,12 @@ def eval_group(case, variants, st, shrink_s=8.0, accept=True, den=True):
                                   'K2c: reports / closure / exit code of the %s run differ from the denotation with '
                                   'dynamic calc_dep edges' % c['runner'])
     # P: serial vs each variant
-    crash_only = False
     if not ref['complete']:
-        if case.get('badvalue') and ref['err'] is not None:
-            # a value that can not be saved ends the serial run with an internal error: the parallel runs must end the
-            # same way (exit code and error class; nothing else is defined)
-            crash_only = True
-        else:
-            st.count('pair_skipped_reference_cut_short')
-            return spent
+        st.count('pair_skipped_reference_cut_short')
+        return spent
     for i, (c, o, s) in enumerate(runs[1:]):
-        if crash_only:
-            st.count('pair_checked_crash')
-            st.count('pair_checked_crash:%s:%s' % (case['badvalue'], c['runner']))
-            # the exit code is what the property names; the error class is derived by the harness from stderr and is
-            # compared only when both runs have one (a hang shows as exit None)
-            if ref['exit'] == s['exit'] and (ref['err'] == s['err'] or None in (ref['err'], s['err'])):
-                continue
-            wit = {'case': _strip(base), 'variant': {'runner': c['runner'], 'nproc': c['nproc'], 'policy': c.get('policy'),
-                                                     'schedule': o.get('schedule')}, 'crash_only': True,
-                   'diff': [[k, None, ref[k], s[k], [[[], ref[k], s[k]]]] for k in ('exit', 'err') if ref[k] != s[k]],
-                   'serial': {'exit': ref['exit'], 'err': ref['err'], 'reports': ref['reports']},
-                   'parallel': {'exit': s['exit'], 'err': o['err'], 'reports': s['reports'], 'stderr': o.get('stderr', '')[-300:]}}
-            st.violation(wit, 'monitor', 'C08: a run whose action returns a value that can not be saved / sent (%s) ends with '
-                         'exit=%s err=%s under the serial runner and exit=%s err=%s under the %s runner (n=%d)' % (
-                             case['badvalue'], ref['exit'], ref['err'], s['exit'], s['err'], c['runner'], c['nproc']))
-            continue
+        if case.get('badvalue'):
+            st.count('pair_checked_badvalue:%s:%s' % (case['badvalue'], c['runner']))
         st.count('pair_checked')
         st.count('pair_checked:%s' % c['runner'])
         d = diff_summaries(ref, s)
@@ -1089,6 +1087,8 @@ def eval_group(case, variants, st, shrink_s=8.0, accept=True, den=True):
                                                  'schedule': o.get('schedule')},
                'diff': d[:12], 'serial': {'exit': ref['exit'], 'reports': ref['reports']},
                'parallel': {'exit': s['exit'], 'err': o['err'], 'reports': s['reports'], 'stderr': o.get('stderr', '')[-300:]}}
+        if sig_unpicklable_result_hangs(wit):
+            st.count('regression:unpicklable-result-hangs')
         if sig_premature_group_status(wit):
             st.count('known:premature-status-delayed-group')
         elif sig_stale_group_result(wit):
@@ -1655,7 +1655,7 @@ def eval_batch(batch):
             st.count('S:tasks:%d+' % (len(c['tasks']) // 50 * 50))
             for v in vs:
                 st.count('S:nproc:%s:%d' % (v['runner'], v['nproc']))
-            # monitors-only: the driver's acceptor (K1) and the unmemoised denotations (K2 / K2c: 6-20 s at 60 tasks) do
+            # monitors-only: the acceptor (K1: 5-7 s per 60-task trace) and the unmemoised denotations (K2 / K2c: 6-20 s) do
             # not scale to these sizes; P (Python comparison of reports, exit code, data, DB, files, teardowns) does
             shrink_left -= eval_group(c, vs, st, shrink_left, accept=False, den=False)
             st.count('S:monitors_only_K1_K2_K2c_not_run', 1 + len(vs))
@@ -1932,11 +1932,6 @@ def replay(ctx, data):
     print('parallel: exit=%s err=%s reports=%s' % (s['exit'], s['err'], {nm(k): x for k, x in s['reports'].items()}))
     if vo.get('stderr'):
         print('parallel stderr:', vo['stderr'][-400:])
-    if not r['complete'] and w.get('crash_only'):
-        print('the serial run ends with an internal error (a value that can not be saved): compared are exit code and error class')
-        same = r['exit'] == s['exit'] and (r['err'] == s['err'] or None in (r['err'], s['err']))
-        print('same end under the %s runner: %s' % (var['runner'], same))
-        return same
     if not r['complete']:
         print('the serial reference run is cut short by a failure: nothing to compare')
         return True
@@ -1952,4 +1947,3 @@ def replay(ctx, data):
 
 
 SIGNATURES['premature-status-delayed-group'] = sig_premature_group_status
-# (finding unpicklable-result-hangs repaired in /repo: signature retired)
